@@ -57,6 +57,23 @@ func init() {
 		runtime.Gosched()
 		return simple("ok")
 	}
+	extSteps["norm"] = func(p *prog, idx int, toks []string) *rec {
+		// norm <ord> $a <axes>: the result is discarded; the caller's axes are a held slice
+		if len(toks) != 4 {
+			return simple("badprog")
+		}
+		t, _ := p.get(toks[2])
+		axes, err := parseInts(toks[3])
+		if t == nil || err != nil {
+			return simple("skip")
+		}
+		ord := map[string]tensor.NormOrder{"inf": tensor.InfNorm(), "ninf": tensor.NegInfNorm(), "fro": tensor.FrobeniusNorm(), "1": tensor.Norm(1), "2": tensor.Norm(2), "0": tensor.Norm(0)}[toks[1]]
+		guard(func() error {
+			_, err := t.Norm(ord, p.hold(axes)...)
+			return err
+		})
+		return simple("ok")
+	}
 	generators["C19"] = genC19
 }
 
@@ -209,7 +226,21 @@ func genC19CallerShapes(g *gen) {
 	}
 }
 
+// norms are outside the properties' statements, but they take the caller's axes: whatever they compute, the axes slice, the
+// operand and every other live tensor stay as they were
+func genC19Norms(g *gen) {
+	for _, dt := range []string{"f64", "f32"} {
+		for _, ord := range []string{"inf", "ninf", "fro", "1", "2", "0"} {
+			for _, c := range []struct{ sh, ax string }{{"2,3", "1,0"}, {"2,3", "0,1"}, {"2,3", "1"}, {"2,3", "0"}, {"2,3,2", "2,0"}, {"2,3,2", "1,2"}, {"4", "0"}} {
+				g.emit("vset=2", fmt.Sprintf("new %s %s C", dt, c.sh), fmt.Sprintf("new %s 2,2 C", dt), fmt.Sprintf("norm %s $0 %s", ord, c.ax), "dump $0", "dump $1",
+					"slice $0 0", "dump $2", fmt.Sprintf("norm %s $0 %s", ord, c.ax), "dump $0")
+			}
+		}
+	}
+}
+
 func genC19(g *gen) {
+	genC19Norms(g)
 	genC19Products(g)
 	genC19ProductDests(g)
 	genC19Identities(g)
